@@ -60,6 +60,10 @@ pub struct PFault {
     /// seed of the order in which pending generators are run (None = library order)
     pub gen_order: Option<u64>,
     pub knobs: Knobs,
+    /// Byzantine bookkeeping: run the prover with `prover_only.lookup_rows[t].last_lu_gate` one row later
+    /// (applied by the caller that owns the circuit; C08)
+    #[serde(default)]
+    pub shift_lookup_rows: Option<usize>,
 }
 
 impl PFault {
@@ -70,6 +74,9 @@ impl PFault {
         }
         if self.cell.is_some() {
             k.push("cell");
+        }
+        if self.shift_lookup_rows.is_some() {
+            k.push("shift_lookup_rows");
         }
         if self.knobs.z_init.is_some() {
             k.push("H1.z_init");
